@@ -20,6 +20,40 @@ def sqrt_contract(x, r, W=130):
     return z3.And(r >= 0, z3.Or(Rr == 0, (Rr - 1) * (Rr - 1) < V), V < (Rr + 1) * (Rr + 1))
 
 
+def stdm_contract(R, h, ranges, unit="stdm"):
+    """sqrt_std_math satisfies |r - sqrt(x)*65536| < 1 on each (tag, lo, hi, advisory) range: real-arithmetic abstraction of the
+    doubles with one relative rounding error per operation and the IEEE contract for libm sqrt (also used by C08)"""
+    xi = z3.Int("x")
+
+    def sqrt_stub(ctx, args):
+        d = args[0]
+        s = ctx.fresh("sqrt", z3.RealSort())
+        e = ctx.fresh("dsq", z3.RealSort())
+        eps = z3.Q(1, 2 ** 53)
+        # IEEE-754: correctly rounded, so s = sqrt(d)*(1+e), |e| <= 2^-53; sqrt(negative) is NaN (handled separately)
+        ctx.assume(z3.Implies(d.r >= 0, z3.And(s >= 0, e >= -eps, e <= eps, s * s == d.r * (1 + e) * (1 + e))))
+        return E.RealFp(s, "double")
+    def sqrtf_stub(ctx, args):
+        d = args[0]
+        s_ = ctx.fresh("sqrtf", z3.RealSort())
+        e = ctx.fresh("dsqf", z3.RealSort())
+        eps = z3.Q(1, 2 ** 24)
+        ctx.assume(z3.Implies(d.r >= 0, z3.And(s_ >= 0, e >= -eps, e <= eps, s_ * s_ == d.r * (1 + e) * (1 + e))))
+        return E.RealFp(s_, "float")
+    fstubs = {"sqrt": sqrt_stub, "sqrtf": sqrtf_stub, "llvm.sqrt.f64": sqrt_stub, "llvm.sqrt.f32": sqrtf_stub}
+    for fma in ("fused", "unfused"):
+        o = E.Opts(int_mode=True, fp_mode="real", stubs=fstubs, fma=fma)
+        c = R.call(h, unit, [xi], opts=o)
+        r = c.out
+        V = xi * 65536
+        goal = z3.And(r >= 0, z3.Or(r == 0, (r - 1) * (r - 1) < V), V < (r + 1) * (r + 1))
+        for (tag, lo_, hi_, adv) in ranges:
+            R.verify("stdm/%s/within-1ulp%s" % (fma, tag), [xi], [c], z3.And(xi >= lo_, xi < hi_), goal, also_ub=True,
+                     portfolio=("z3", "cvc5"), timeout=120, advisory=adv,
+                     note="sqrt_std_math in real arithmetic with one relative rounding error per FP operation and the IEEE "
+                          "contract for libm sqrt: |result - sqrt(x)*65536| < 1 for every x of the range")
+
+
 def run(R):
     h = R.harness("main", UNITS)
     hab = R.harness("abacus17", [UNITS[2], UNITS[0]], defines=["FIXEDMATH_ENABLE_SQRT_ABACUS_ALGO"])
@@ -61,35 +95,7 @@ def run(R):
     # ------------------------------------------------------------------ abacus: invariant
     abacus_invariant(R, h, x)
     # ------------------------------------------------------------------ std algorithm in the real abstraction
-    xi = z3.Int("x")
-
-    def sqrt_stub(ctx, args):
-        d = args[0]
-        s = ctx.fresh("sqrt", z3.RealSort())
-        e = ctx.fresh("dsq", z3.RealSort())
-        eps = z3.Q(1, 2 ** 53)
-        # IEEE-754: correctly rounded, so s = sqrt(d)*(1+e), |e| <= 2^-53; sqrt(negative) is NaN (handled separately)
-        ctx.assume(z3.Implies(d.r >= 0, z3.And(s >= 0, e >= -eps, e <= eps, s * s == d.r * (1 + e) * (1 + e))))
-        return E.RealFp(s, "double")
-    def sqrtf_stub(ctx, args):
-        d = args[0]
-        s_ = ctx.fresh("sqrtf", z3.RealSort())
-        e = ctx.fresh("dsqf", z3.RealSort())
-        eps = z3.Q(1, 2 ** 24)
-        ctx.assume(z3.Implies(d.r >= 0, z3.And(s_ >= 0, e >= -eps, e <= eps, s_ * s_ == d.r * (1 + e) * (1 + e))))
-        return E.RealFp(s_, "float")
-    fstubs = {"sqrt": sqrt_stub, "sqrtf": sqrtf_stub, "llvm.sqrt.f64": sqrt_stub, "llvm.sqrt.f32": sqrtf_stub}
-    for fma in ("fused", "unfused"):
-        o = E.Opts(int_mode=True, fp_mode="real", stubs=fstubs, fma=fma)
-        c = R.call(h, "stdm", [xi], opts=o)
-        r = c.out
-        V = xi * 65536
-        goal = z3.And(r >= 0, z3.Or(r == 0, (r - 1) * (r - 1) < V), V < (r + 1) * (r + 1))
-        for (tag, lo_, hi_, adv) in (("", 0, 1 << 47, False), ("/2^47..2^48 (lemma for hypot)", 1 << 47, XLIM, True)):
-            R.verify("stdm/%s/within-1ulp%s" % (fma, tag), [xi], [c], z3.And(xi >= lo_, xi < hi_), goal, also_ub=True,
-                     portfolio=("z3", "cvc5"), timeout=120, advisory=adv,
-                     note="sqrt_std_math in real arithmetic with one relative rounding error per FP operation and the IEEE "
-                          "contract for libm sqrt: |result - sqrt(x)*65536| < 1 for every x of the range")
+    stdm_contract(R, h, (("", 0, 1 << 47, False), ("/2^47..2^48 (lemma for hypot)", 1 << 47, XLIM, True)))
     R.assume_note("std algorithm: doubles are reals with |relative error| <= 2^-53 per rounding; int->double exact below 2^53 "
                   "(checked as a side condition), division by 65536 exact, libm sqrt correctly rounded (IEEE-754 / glibc); "
                   "monotonicity of the std algorithm is outside this abstraction and not claimed")
